@@ -7,6 +7,7 @@ open C05FragModel
 open C05CodecModel
 open C05SegModel
 open C05SegCodecModel
+open C05EmsgModel
 
 let hexn s = n_of_hex s
 let hn n = hex_of_n n
@@ -112,23 +113,76 @@ let full_string (l : fullsample list) : string =
 
 let res_class = function Base.Ok _ -> "o" | Base.Err -> "e" | Base.Panic -> "p" | Base.OutOfFuel -> "fuel"
 
+(* ---- histories: sample additions interleaved with AddEmsg (E), AddChild (C) and a plain Encode (N: no effect on the
+   observables compared here, skipped by the model) *)
+let parse_xbox (s : string) : xbox =
+  match split_on '.' s with
+  | [k; sz; first; refs] ->
+    let kind = (match k with "s" -> XStyp | "x" -> XSidx | "e" -> XEmsg | _ -> XOther) in
+    let rl = if refs = "-" then [] else
+        L.map (fun r -> match split_on ':' r with
+            | [t; z] -> { sr_type = hexn t; sr_size = hexn z }
+            | _ -> failwith ("bad ref " ^ r)) (split_on '/' refs) in
+    { x_kind = kind; x_size = hexn sz; x_first = hexn first; x_refs = rl }
+  | _ -> failwith ("bad xbox " ^ s)
+
+let parse_xboxes (s : string) : xbox list = if s = "-" then [] else L.map parse_xbox (split_on ',' s)
+
+type hop = HS of op * coq_N list | HE of xbox | HC of xbox | HN
+
+let parse_hop (s : string) : hop =
+  if s = "N" then HN
+  else if S.length s > 2 && S.sub s 0 2 = "E:" then HE (parse_xbox (S.sub s 2 (S.length s - 2)))
+  else if S.length s > 2 && S.sub s 0 2 = "C:" then HC (parse_xbox (S.sub s 2 (S.length s - 2)))
+  else let (o, d) = parse_op s in HS (o, d)
+
+let parse_hops (s : string) : hop list = if s = "-" then [] else L.map parse_hop (split_on ';' s)
+
+(* runs a history from the created fragment fr0 with boxes p0 put in front of the moof; returns the class string,
+   the final state (None after a panic) and the data the caller writes for the accepted metadata-only additions *)
+let run_hops (fr0 : frag) (p0 : xbox list) (hops : hop list) : string * lstate option * coq_N list =
+  let lops = L.concat (L.map (function HS (o, _) -> [LSample o] | HE x -> [LEmsg x] | HC x -> [LChild x] | HN -> []) hops) in
+  let (classes, sto) = run_lops (l_start fr0 p0 []) lops in
+  let b = Buffer.create 16 in
+  let lz = ref [] in
+  let rec go hs cs panicked =
+    if panicked then () else
+    match hs with
+    | [] -> ()
+    | HN :: rest -> Buffer.add_string b "o"; go rest cs false
+    | h :: rest ->
+      (match cs with
+       | [] -> ()
+       | c :: cs' ->
+         Buffer.add_string b (class_char c);
+         (match h, c with HS (_, d), COk -> lz := d :: !lz | _ -> ());
+         go rest cs' (c = CPanic)) in
+  go hops classes false;
+  (Buffer.contents b, sto, L.concat (L.rev !lz))
+
+let layout_string (cs : child list) : string =
+  match cs with
+  | [] -> "-"
+  | _ -> S.concat "," (L.map (function
+      | KMoof -> "M" | KMdat -> "D"
+      | KX x -> (match x.x_kind with XEmsg -> "e" | _ -> "o") ^ hn x.x_size) cs)
+
 let case_h id cfg opss obs =
   let c = kv cfg in
   let g k = L.assoc k c in
   let tracks = hexlist (g "t") in
+  let p0 = parse_xboxes (g "lp") in
   let fr0 = if g "m" = "1" then create_multi tracks else create_fragment (L.hd tracks) in
-  let fr0 = with_extras fr0 (hexn (g "pre")) (hexn (g "mx")) (hexn (g "post")) (hexlist (g "tx")) in
-  let ops = if opss = "-" then [] else L.map parse_op (split_on ';' opss) in
-  let (classes, fro) = run_ops fr0 (L.map fst ops) in
-  (* data written separately by the caller: that of the lazily added ops that succeeded *)
-  let lazy_data = L.concat (L.map2 (fun (_, d) cl -> if cl = COk then d else [])
-                              (L.filteri (fun i _ -> i < L.length classes) ops) classes) in
+  let fr0 = with_extras fr0 (xsum p0) (hexn (g "mx")) N0 (hexlist (g "tx")) in
+  let (classes, sto, lazy_data) = run_hops fr0 p0 (parse_hops opss) in
   let b = Buffer.create 256 in
-  Buffer.add_string b ("ops=" ^ S.concat "" (L.map class_char classes));
-  (match fro with
+  Buffer.add_string b ("ops=" ^ classes);
+  (match sto with
    | None -> ()
-   | Some fr ->
+   | Some st ->
+     let fr = l_sync st in
      let m = fr.fr_mdat in
+     Buffer.add_string b ("|lay=" ^ layout_string st.l_children);
      Buffer.add_string b ("|st=" ^ hn fr.fr_next ^ "/" ^ string_of_int_hex (L.length m.md_data) ^ "/" ^ hn m.md_lazy
                           ^ "/" ^ string_of_int_hex (L.length m.md_parts));
      Buffer.add_string b (traf_state fr);
@@ -157,20 +211,22 @@ let case_h id cfg opss obs =
   let m = Buffer.contents b in
   if m = obs then Printf.printf "OK %s\n" id else Printf.printf "MISMATCH %s model=%s\n" id m
 
+(* ---- L cases: Fragment.Children under AddEmsg / AddChild, from any starting layout *)
+let parse_layout (s : string) : child list =
+  if s = "-" then [] else
+    L.map (fun t ->
+        if t = "M" then KMoof else if t = "D" then KMdat
+        else
+          let k = if t.[0] = 'e' then XEmsg else XOther in
+          KX { x_kind = k; x_size = hexn (S.sub t 1 (S.length t - 1)); x_first = N0; x_refs = [] }) (split_on ',' s)
+
+let case_l id init opss obs =
+  let hops = parse_hops opss in
+  let cs = L.fold_left (fun cs h -> match h with HE x -> add_emsg cs x | HC x -> add_child cs x | _ -> cs) (parse_layout init) hops in
+  let m = "ops=" ^ S.concat "" (L.map (fun _ -> "o") hops) ^ "|lay=" ^ layout_string cs in
+  if m = obs then Printf.printf "OK %s\n" id else Printf.printf "MISMATCH %s model=%s\n" id m
+
 (* ---- G cases: a whole segment as a box stream *)
-let parse_xbox (s : string) : xbox =
-  match split_on '.' s with
-  | [k; sz; first; refs] ->
-    let kind = (match k with "s" -> XStyp | "x" -> XSidx | "e" -> XEmsg | _ -> XOther) in
-    let rl = if refs = "-" then [] else
-        L.map (fun r -> match split_on ':' r with
-            | [t; z] -> { sr_type = hexn t; sr_size = hexn z }
-            | _ -> failwith ("bad ref " ^ r)) (split_on '/' refs) in
-    { x_kind = kind; x_size = hexn sz; x_first = hexn first; x_refs = rl }
-  | _ -> failwith ("bad xbox " ^ s)
-
-let parse_xboxes (s : string) : xbox list = if s = "-" then [] else L.map parse_xbox (split_on ',' s)
-
 let case_g id cfg frss obs =
   let c = kv cfg in
   let g k = L.assoc k c in
@@ -184,18 +240,17 @@ let case_g id cfg frss obs =
         let fc = kv fcfg in
         let fg k = L.assoc k fc in
         let tracks = hexlist (fg "t") in
-        let pre = parse_xboxes pre and post = parse_xboxes post and between = parse_xboxes between in
+        let p0 = parse_xboxes pre and between = parse_xboxes between in
+        ignore post;
         let fr0 = if fg "m" = "1" then create_multi tracks else create_fragment (L.hd tracks) in
-        let fr0 = with_extras fr0 (xsum pre) (hexn (fg "mx")) (xsum post) (hexlist (fg "tx")) in
-        let ops = if opss = "-" then [] else L.map parse_op (split_on ';' opss) in
-        let (classes, fro) = run_ops fr0 (L.map fst ops) in
-        let lazy_data = L.concat (L.map2 (fun (_, d) cl -> if cl = COk then d else [])
-                                    (L.filteri (fun i _ -> i < L.length classes) ops) classes) in
-        (match fro with
+        let fr0 = with_extras fr0 (xsum p0) (hexn (fg "mx")) N0 (hexlist (fg "tx")) in
+        let (_, sto, lazy_data) = run_hops fr0 p0 (parse_hops opss) in
+        (match sto with
          | None -> None
-         | Some fr ->
-           (match encode_frag opt fr with
-            | Base.Ok fe -> Some { ei_pre = pre; ei_fe = fe; ei_post = post; ei_lz = lazy_data; ei_between = between }
+         | Some st ->
+           (match encode_frag opt (l_sync st) with
+            | Base.Ok fe -> Some { ei_pre = pre_of st.l_children; ei_fe = fe; ei_post = post_of st.l_children;
+                                   ei_lz = lazy_data; ei_between = between }
             | _ -> None))
       | _ -> failwith "bad fragment spec") frs in
   let m =
@@ -312,5 +367,6 @@ let () =
       | ["G"; id; cfg; frs; obs] -> case_g id cfg frs obs
       | ["B"; id; cfg; op; toks; obs] -> case_b id cfg op toks obs
       | ["M"; id; kind; boxhex; obs] -> case_m id kind boxhex obs
+      | ["L"; id; init; ops; obs] -> case_l id init ops obs
       | "STAT" :: _ -> ()
       | _ -> Printf.printf "BADLINE %s\n" (if S.length line > 80 then S.sub line 0 80 else line))
